@@ -130,14 +130,20 @@ def main(run):
         for h in hist:
             tasks.append((len(tasks), list(h), rnd.randrange(1 << 30)))
     base_id = len(tasks)
-    results = dict(pmap(H.play, [(base_id, [], 0), (base_id + 1, [], 1)] + tasks, chunksize=1))
-    base = results[base_id]
-    if base is None or results[base_id + 1] is None:
+    # the reference of every probe: that probe ALONE in a process that has assembled nothing before (twice, to see that this is stable)
+    names = [n for n, _, _ in H.PROBES]
+    alone = [(base_id + 2 + 2 * q + v, [], v, n) for q, n in enumerate(names) for v in (0, 1)]
+    results = dict(pmap(H.play, [(base_id, [], 0), (base_id + 1, [], 1)] + alone + tasks, chunksize=1))
+    if results[base_id] is None or results[base_id + 1] is None or any(results[a[0]] is None for a in alone):
         raise MachineryError("the probes did not run in a fresh process")
-    for name in base["probes"]:
-        if H.diff_probe(base["probes"][name], results[base_id + 1]["probes"][name]):
-            run.violation(f"probe {name}: two fresh processes disagree in {H.diff_probe(base['probes'][name], results[base_id + 1]['probes'][name])}",
-                          {"a": base["probes"][name], "b": results[base_id + 1]["probes"][name]}, tags=["shape:fresh-vs-fresh"])
+    base = {"probes": {n: results[base_id + 2 + 2 * q]["probes"][n] for q, n in enumerate(names)}}
+    for q, n in enumerate(names):
+        for other, what in ((results[base_id + 2 + 2 * q + 1], "alone in a second fresh process"), (results[base_id], "after the probes before it"),
+                            (results[base_id + 1], "after the probes before it (second run)")):
+            d = H.diff_probe(base["probes"][n], other["probes"][n])
+            if d:
+                run.violation(f"probe {n}: alone in a fresh process it gives another result than {what}: differs in {d}",
+                              {"alone": base["probes"][n], "other": other["probes"][n]}, tags=["shape:probe-order-dependence"])
     want = {"p1": "ok", "p2": "error", "p3": "ok", "p4": "ok", "p5": "error"}
     for name, w in want.items():
         if base["probes"][name]["outcome"] != w:
